@@ -23,7 +23,7 @@ DEVIATION_CFGS = [  # (cfg, property the model must violate with that deviation 
     ("MC_HV_DevStrip.cfg", "Soundness"), ("MC_HV_DevTrust.cfg", "Soundness"), ("MC_HV_DevNil.cfg", "NoPanic"),
     ("MC_HV_DevNumKey.cfg", "Soundness"), ("MC_HV_DevNonCanon.cfg", "Soundness"), ("MC_HV_DevSlot.cfg", "NoPanic"),
     ("MC_HV_DevNoKey.cfg", "Soundness"), ("MC_HV_DevUncle.cfg", "Soundness"), ("MC_HV_DevTx.cfg", "Soundness"),
-    ("MC_HV_DevProof.cfg", "Soundness"),
+    ("MC_HV_DevProof.cfg", "Soundness"), ("MC_HV_DevHashKey.cfg", "Soundness"),
 ]
 SLIM = ("ev", "layer", "k", "c", "s", "out", "stored", "returned", "ib")
 
